@@ -11,10 +11,11 @@
  */
 #include "vf_env.h"
 #include "vorbisfile.c"
+static int g_last_ser=0;   /* ghost: serial number of the page read last */
 static ogg_int64_t _get_next_page(OggVorbis_File *vf,ogg_page *og,ogg_int64_t boundary){
   if(env_budget<=0) return OV_EOF; env_budget--;
   ogg_int64_t r=ND_long(); if(r<0){ ASSUME(r==OV_FALSE||r==OV_EOF||r==OV_EREAD); return r; }
-  ASSUME(r>=vf->offset && r<(1L<<40)); env_fill_page(og); env_page_id++; vf->offset=r+31; return r; }
+  ASSUME(r>=vf->offset && r<(1L<<40)); env_fill_page(og); env_page_id++; g_last_ser=ogg_page_serialno(og); vf->offset=r+31; return r; }
 void harness(void){
 #ifdef VIA_OPEN
   OggVorbis_File vf; int ds=1;
@@ -33,7 +34,7 @@ void harness(void){
     CHECK((list==0)==(n==0),"serial list and its count stay consistent");
     WITNESS_AT("failed"); if(list==0 && n==0 && env_budget<ENV_BUDGET-2) WITNESS_AT("failed after some pages"); }
   else { CHECK(vf.ready_state==STREAMSET && vc.vendor!=0 && list!=0 && n>=1,"success: stream selected, headers stored, serial list non-empty"); WITNESS_AT("headers fetched");
-    CHECK(env_page_in==env_page_id,"success: the page left in the caller's page object has already been submitted to the stream (contract used by F-fetch: it must not be submitted again)");
+    CHECK(env_page_in==env_page_id || g_last_ser!=vf.os.serialno,"success: the page left in the caller's page object has already been submitted to the stream, or belongs to another stream (contract used by F-fetch: it must not be submitted again)");
     vorbis_info_clear(&vi); vorbis_comment_clear(&vc); }
   if(list) free(list);
   ogg_stream_clear(&vf.os);
